@@ -497,5 +497,5 @@ def run(tier="quick"):
     rep.not_decided = ["equality with the exact statistics (numeric coefficients), symmetry of merge, rounding"]
     for m in models[:1]:
         rep.configs.append(m.config)
-        rules(rep, m)
+        common.run_rules(rep, m, rules)
     return rep.finish()
